@@ -499,7 +499,8 @@ class Rewriter:
             body_close = match_close(toks, body_open)
             inner = self._cont_block(text, toks, body_open + 1, body_close)
             old_body = text[toks[body_open].end:toks[body_close].start]
-            new_body = " let mut vx_cont = false; " + inner
+            lead = text[toks[body_open].end:toks[body_open + 1].start]
+            new_body = " let mut vx_cont = false;" + (lead if "\n" in lead else " ") + inner
             new_body += "\n" * max(0, old_body.count("\n") - new_body.count("\n"))      # keep the line count
             text = text[:toks[body_open].end] + new_body + text[toks[body_close].start:]
             self.count("R24 loop body with `continue` -> per-iteration flag vx_cont")
@@ -579,7 +580,9 @@ class Rewriter:
             if idx + 1 < len(stmts):
                 rs = stmts[idx + 1][0]
                 rest_inner = self._cont_block(text, toks, rs, b)
-                rest = " if !vx_cont { " + rest_inner + " }"
+                # keep the line structure (anchors of hints are resolved by line): the gap between the two statements stays
+                gap = text[toks[e - 1].end:toks[rs].start]
+                rest = " if !vx_cont {" + (gap if "\n" in gap else " ") + rest_inner + " }"
             tail_ws = ""
             return head + st + rest + tail_ws
         return text[toks[a].start:toks[b - 1].end]
